@@ -903,28 +903,24 @@ def _rule_shift(ctx: Ctx, adu) -> None:
 # ------------------------------------------------------------------ R4: depth pairing / order in the hooks
 
 def _indices_kind(fn: ast.AST, e: Optional[ast.expr]) -> tuple[Optional[str], bool, int]:
-    """(kind mentioned by a depth expression, exact `len(self.X_indices)`-like form?, constant offset)."""
+    """(kind mentioned by a depth expression, exact `len(self.X_indices)`-like form?, constant offset).
+    Single-assignment temporaries are followed, also below a `+/- const`."""
     if e is None:
         return None, False, 0
     e = _resolve(fn, e)
-    kinds = set()
-    for n in ast.walk(e):
-        if isinstance(n, ast.Attribute):
-            for k, attr in KIND_INDICES_ATTR.items():
-                if n.attr == attr:
-                    kinds.add(k)
-    if len(kinds) != 1:
-        return (None if not kinds else "both"), False, 0
-    k = kinds.pop()
     offset = 0
-    if isinstance(e, ast.BinOp) and isinstance(e.op, (ast.Add, ast.Sub)):
-        for a, b, sign in ((e.left, e.right, 1), (e.right, e.left, 1)):
-            if isinstance(b, ast.Constant) and isinstance(b.value, int) and not isinstance(b.value, bool):
-                if isinstance(e.op, ast.Sub) and b is e.left:
-                    break  # const - len(...): not a depth
-                offset = b.value if isinstance(e.op, ast.Add) else -b.value
-                e = _resolve(fn, a)
-                break
+    for _ in range(3):
+        if isinstance(e, ast.BinOp) and isinstance(e.op, (ast.Add, ast.Sub)):
+            l, r = e.left, e.right
+            if isinstance(r, ast.Constant) and type(r.value) is int:
+                offset += r.value if isinstance(e.op, ast.Add) else -r.value
+                e = _resolve(fn, l)
+                continue
+            if isinstance(l, ast.Constant) and type(l.value) is int and isinstance(e.op, ast.Add):
+                offset += l.value
+                e = _resolve(fn, r)
+                continue
+        break
     inner = None
     if isinstance(e, ast.Call) and call_name(e) == "len" and len(e.args) == 1:
         inner = _resolve(fn, e.args[0])
@@ -932,6 +928,15 @@ def _indices_kind(fn: ast.AST, e: Optional[ast.expr]) -> tuple[Optional[str], bo
         inner = _resolve(fn, e.value)
     elif isinstance(e, ast.Subscript) and isinstance(e.value, ast.Attribute) and e.value.attr == "shape" and u(e.slice) == "0":
         inner = _resolve(fn, e.value.value)
+    kinds = set()
+    for n in ast.walk(inner if inner is not None else e):
+        if isinstance(n, ast.Attribute):
+            for k, attr in KIND_INDICES_ATTR.items():
+                if n.attr == attr:
+                    kinds.add(k)
+    if len(kinds) != 1:
+        return (None if not kinds else "both"), False, 0
+    k = kinds.pop()
     exact = isinstance(inner, ast.Attribute) and inner.attr == KIND_INDICES_ATTR[k]
     return k, exact, offset
 
